@@ -65,4 +65,22 @@ structure TlsSetup where
   recognised : Bool := true
   deriving DecidableEq, Repr
 
+/-- How `ClientCertRecognizingAcceptor::accept` turns `peer_certificates()` (everything the client put
+into its Certificate message: the end-entity certificate FIRST, then whatever else it chose to
+send) into the `ClientIdentity` of the connection, and how `NetworkConfig::identify_cert` compares
+(regenerated). -/
+structure AcceptSelect where
+  /-- the certificate handed to `identify_cert` is `peer_certificates().and_then(<[_]>::first)`:
+  the end-entity certificate, the only one the client proved possession of the key for -/
+  firstOnly : Bool
+  /-- `identify_cert` is called exactly once in `accept`, on that selection, and its result alone
+  (`option_id.map(ClientIdentity)`) becomes the `id` of `SetClientIdentityFromCertificate` -/
+  identifyOnce : Bool
+  /-- `identify_cert`: `None` for no certificate (early `cert?`), otherwise the identity of the first
+  configured peer whose pinned certificate is byte-identical (`p.certificate.as_ref() == Some(cert)`) -/
+  exactMatch : Bool
+  /-- `false`: shape not recognised by the translator; the other fields are the fallback -/
+  recognised : Bool := true
+  deriving DecidableEq, Repr
+
 end IpaVerif.Auth
